@@ -1,12 +1,21 @@
 ----------------------------- MODULE Trace_C02 -----------------------------
+(* Judge of run-time observations of enum conversions (real proc-macro, executed).
+   record [prop, case, in, k, f, vin (index of the variant value converted), res, variant, leaves]  |  [prop = "CF", case, in, errors] *)
 EXTENDS O2OEnum, Json, IOUtils
 Rec == ndJsonDeserialize(IOEnv.TRACE)
 VARIABLE l
 Obs(r) == [variant |-> r.variant, leaves |-> {r.leaves[i] : i \in DOMAIN r.leaves}]
 Exp(r) == IF IsFrom(r.k) THEN FromExp(r.in, r.vin) ELSE IntoExp(r.in, r.vin)
+C02Symptom(r) == IF r.res # "ok" THEN "unexpected_error"
+                 ELSE IF Obs(r) = Exp(r) THEN "-"
+                 ELSE IF Obs(r).variant # Exp(r).variant THEN "wrong_variant" ELSE "wrong_payload"
+Symptom(r) == IF r.prop = "CF" THEN "does_not_compile" ELSE C02Symptom(r)
+AnyTupleIdx(in) == \E i \in DOMAIN in.vs : Cell(in, i, "any").idx_member_no_action
+Report(r) == IF r.prop = "CF" THEN [case |-> r.case, symptom |-> Symptom(r), cell |-> [idx_member_no_action |-> AnyTupleIdx(r.in), kind |-> "any"], errors |-> r.errors]
+             ELSE [case |-> r.case, symptom |-> Symptom(r), cell |-> Cell(r.in, r.vin, r.k), expected |-> Exp(r), observed |-> Obs(r)]
 Init == l = 1
 Consume == /\ l <= Len(Rec)
-           /\ (IF Obs(Rec[l]) = Exp(Rec[l]) THEN TRUE ELSE PrintT(<<"MISMATCH", l, Rec[l].case, Rec[l].in, Rec[l].k, Rec[l].f, Rec[l].vin, "expected", Exp(Rec[l]), "observed", Obs(Rec[l])>>))
+           /\ (IF Symptom(Rec[l]) = "-" THEN TRUE ELSE PrintT(<<"MISMATCH", ToJson(Report(Rec[l]))>>))
            /\ l' = l + 1
 Spec == Init /\ [][Consume]_l
 Accepted == TLCGet("stats").diameter - 1 = Len(Rec)
